@@ -843,6 +843,34 @@ impl<'a> Gen<'a> {
             json!(["iou", *self.rng.pick(&[0.1f64, 0.3, 0.5])])
         }
     }
+    /// An EMPTY feature vector is a real (zero-padded) feature, not "no feature". One object alone (no ties possible),
+    /// Euclidean metric, minimal track length 1: the object jumps far away between frames, so only the appearance vote
+    /// (distance 0 between the two empty features) can keep its track; the wasted track reports the stored feature.
+    fn empty_feature_episode(&mut self, batch: bool) {
+        let o = self.name("o");
+        push!(self, json!(["opts_new", o]));
+        push!(self, json!(["opts_set", null, o, "visual_minimal_track_length", 1]));
+        push!(self, json!(["opts_set", null, o, "max_idle_epochs", 2]));
+        let t = self.name("t");
+        if batch {
+            push!(self, json!(["bvsort_new", t, 1, 1, o]));
+        } else {
+            push!(self, json!(["vsort_new", t, 1 + self.rng.usize(2), o]));
+        }
+        for k in 0..3 {
+            let b = self.name("u");
+            let (x, y) = (100.0 + 400.0 * k as f64 + self.rng.range(0, 9) as f64, 100.0 + 250.0 * (k % 2) as f64);
+            push!(self, json!(["u_new", b, x, y, null, 0.5, 40.0]));
+            let det = json!([{"box": b, "custom": 7 + k, "feature": Vec::<f64>::new(), "quality": 1.0}]);
+            if batch {
+                push!(self, json!(["predict_batch", null, t, [[0, det]]]));
+            } else {
+                push!(self, json!(["predict", null, t, 0, det]));
+            }
+        }
+        push!(self, json!(["skip", null, t, 0, 5]));
+        push!(self, json!(["wasted", null, t]));
+    }
     fn options(&mut self) -> String {
         let o = self.name("o");
         self.cosine = false;
@@ -959,12 +987,7 @@ impl<'a> Gen<'a> {
             if visual {
                 if self.rng.chance(0.85) {
                     let ft: Vec<f64> = o.2.iter().map(|p| ((*p as f64 + self.rng.normal() * 0.02) as f32) as f64).collect();
-                    // now and then an EMPTY feature vector: a real (zero-padded) feature, not "no feature"
-                    if self.rng.chance(0.05) && !self.cosine {
-                        d.insert("feature".into(), json!(Vec::<f64>::new()));
-                    } else {
-                        d.insert("feature".into(), json!(ft));
-                    }
+                    d.insert("feature".into(), json!(ft));
                 }
                 if self.rng.chance(0.8) {
                     d.insert("quality".into(), json!(*self.rng.pick(&[0.125f64, 0.25, 0.5, 0.75, 1.0])));
@@ -1096,6 +1119,10 @@ fn gen_script(rng: &mut Rng) -> Vec<Value> {
             }
             _ => g.tracker(),
         }
+    }
+    if g.rng.chance(0.2) {
+        let batch = g.rng.chance(0.5);
+        g.empty_feature_episode(batch);
     }
     g.steps
 }
